@@ -22,6 +22,7 @@
    by fuel > depth of the initialiser). *)
 From Coq Require Import ZArith List Bool.
 Import ListNotations.
+From Cffi Require Import C20.Gen.      (* regenerated order fact about convert_array_from_object *)
 Open Scope Z_scope.
 
 Inductive err := TypeError | ValueError | IndexError | KeyError | OverflowError
@@ -301,8 +302,14 @@ Definition fill_field (rec : ltype -> Z -> pyval -> mem -> res mem) (off : Z)
 (* convert_array_from_object 1504-1524 (commit 812503f): an array item of var-sized struct type has
    room for ct_size bytes only; its initialiser is run through the sizing pass first and refused
    when it needs more *)
+(* CT_WITH_VAR_ARRAY as convert_array_from_object sees it.  The flag lives in ct_flags_mut and is set
+   only when the field list of the struct is loaded; out-of-line API modules load it lazily.  The
+   code forces the struct (force_lazy_struct) before reading the flag — regenerated fact C20.Gen.
+   Were the flag read first, a still-lazy struct would show 0: the model then takes that worst case. *)
+Definition flag_visible : bool := forced_before_flag_read.
+
 Definition item_guard (fuel : nat) (item : ltype) (x : pyval) : res unit :=
-  if agg_var item && negb (is_cdata x) then
+  if flag_visible && agg_var item && negb (is_cdata x) then
     bind (size_struct fuel (agg_fields item) x (lsize item)) (fun n =>
     if lsize item <? n then Err ValueError else Ok tt)
   else Ok tt.
